@@ -132,12 +132,21 @@ def decode_steps(dec, tys):
     return outs
 
 
+_BUILDERS = {}
+
+
 def run_build(case):
     """the real builder and the three transports; everything canonicalised"""
     bo, wo = EN[case['bo']], EN[case['wo']]
     vals = case['values']
     tys = [ty_of(v) for v in vals]
-    b = BinaryPayloadBuilder(byteorder=bo, wordorder=wo, repack=bool(case.get('repack')))
+    # builders are REUSED (reset() between payloads), as an application that sends records in a loop does: nothing of the
+    # previous payload may survive the reset
+    key = (case['bo'], case['wo'], bool(case.get('repack')))
+    b = _BUILDERS.get(key)
+    if b is None or len(_BUILDERS) > 64:
+        b = _BUILDERS[key] = BinaryPayloadBuilder(byteorder=bo, wordorder=wo, repack=bool(case.get('repack')))
+    b.reset()
     try:
         for v in vals:
             arg = py_of(v)
@@ -465,6 +474,18 @@ def replay(ctx, payload):
     c = payload.get('case') or (payload.get('first_disagreements') or [{}])[0].get('case')
     if not c:
         return 'nothing to replay in this file'
+    if c.get('kind') == 'build' or 'values' in c:
+        # the builder is reused across payloads in a run: put a different payload of the same shape through it first
+        def alter(v):
+            if v[0] == 'bits':
+                return [v[0], [1 - int(bool(x)) for x in v[1]]]
+            if v[0] == 'str':
+                return [v[0], [(x + 1) % 128 for x in v[1]]]
+            return [v[0], v[1] ^ 1 if isinstance(v[1], int) else v[1]]
+        try:
+            run_build(dict(c, values=[alter(v) for v in c['values']]))
+        except Exception:  # noqa
+            pass
     run_cases(ctx, rep, [c])
     from harness.runner import load_known
     known = {f['id'] for f in load_known() if f.get('property') == 'C19' and f.get('status') == 'known'}
